@@ -46,6 +46,7 @@ namespace pika::experimental {
             if (event_.load(std::memory_order_acquire)) return;
 
             std::unique_lock<mutex_type> l(mtx_);
+            PIKA_VERIF_POINT("event.inlock", this, 0, 0);
             wait_locked(l);
         }
 
@@ -57,6 +58,7 @@ namespace pika::experimental {
             PIKA_VERIF_POST("event.stored", this, 1, 0);
 
             std::unique_lock<mutex_type> l(mtx_);
+            PIKA_VERIF_POINT("event.inlock", this, 1, 0);
             set_locked(std::move(l));
         }
 
